@@ -1,7 +1,7 @@
 (* C19 — functools.partial objects get the signature Python actually enforces. *)
 From Sigtools.Model Require Import Base Bind Roles Algebra.
 From Sigtools.Model Require Import Universe.
-From Sigtools.Proofs Require Import SmallModel Basics Deciders SweepDefs SweepDefs2 Bounded2.
+From Sigtools.Proofs Require Import SmallModel Basics Deciders SweepDefs SweepDefs2 Bounded2 MaskLaws MaskExact.
 
 Theorem C19_wf s n kw pobj r : sig_partial s n kw pobj = Ok r -> validate (params r) = true.
 Proof. exact (sig_partial_wf s n kw pobj r). Qed.
@@ -39,3 +39,21 @@ Theorem C19_partial_exact_U2 s n names0 :
   end.
 Proof. exact (partial_exact_U2 s n names0). Qed.
 Print Assumptions C19_partial_exact_U2.
+
+(* for ALL functions and ALL calls: a partial object binding n > 0 positional
+   arguments accepts exactly the non-colliding calls the function accepts with n
+   extra leading positionals: bound positionals disappear *)
+Theorem C19_positional_exact s n pobj :
+  valid_sig (params s) = true -> n <> 0%nat ->
+  match sig_partial s n [] pobj with
+  | Ok r => forall c, noncolliding c (params r) [params s] = true ->
+                      accepts (params r) c = accepts (params s) (partial_call n [] c)
+  | Err e => e = ValueErr /\ forall c, accepts (params s) (partial_call n [] c) = false
+  end.
+Proof. exact (partial_positional_exact s n pobj). Qed.
+Print Assumptions C19_positional_exact.
+
+Theorem C19_nothing_bound s pobj r :
+  valid_sig (params s) = true -> sig_partial s 0 [] pobj = Ok r -> params r = params s.
+Proof. exact (partial_nothing_bound_params s pobj r). Qed.
+Print Assumptions C19_nothing_bound.
